@@ -39,6 +39,33 @@ CHECKS = {
                      "(regrouped sort in create_ranges_of_repetitions) is fingerprinted structurally.",
         technique="static analysis: order-taint over MIR types, effect summaries via constant propagation, dominators, compile_fail witnesses",
     ),
+    "C07": dict(
+        category="other",
+        text="Panic discipline decided statically: the three documented panics are exact (single guard, documented message, other path writes); no explicit "
+             "panic and no unwrap of a run-time Result is reachable from build(); the two bounds guards dominate their sites; an inventory of the remaining "
+             "panic-capable sites is evidence only. That the printed pattern is accepted by the regex crate is not decided.",
+        design_ref="DESIGN.md §4 C07",
+        note=TRUST + "Option::unwrap/indexing/arithmetic sites reachable from build() are enumerated, not proven unreachable.",
+        technique="static analysis: call-graph reachability, constant propagation on the documented panics, dominator-based guard rules",
+    ),
+    "C08": dict(
+        category="other",
+        text="Anchor emission decided exactly by constant propagation over the printer (all abstract paths: '^'/'$' iff enabled, nothing rewrites them); "
+             "the search clause is decided only as mechanism: alternations are always ordered longest-first, the order self-check covers every "
+             "configuration without '$' and judges the match extent.",
+        design_ref="DESIGN.md §4 C08",
+        note=TRUST + "That every search spans the whole test case for all inputs is not decided (needs the run-time automaton).",
+        technique="static analysis: path-splitting constant propagation with string templates, control dependence, provenance of the self-check verdict",
+    ),
+    "C13": dict(
+        category="other",
+        text="Decided structurally: repetition conversion is reachable only under its setting; Grapheme constructors write constant counts except the "
+             "two audited callers; the count filter is the strict comparison with minimum_repetitions and the splice is dominated by the "
+             "minimum-substring-length test; nested conversion receives the same settings.",
+        design_ref="DESIGN.md §4 C13",
+        note=TRUST + "Arithmetic of counts and ranges for every input is not decided.",
+        technique="static analysis: guarded call-graph reachability, origin trees of guard conditions, who-may-call",
+    ),
 }
 
 NOT_APPLICABLE = {
